@@ -1,4 +1,5 @@
 import Sourmash.Lemmas.CrashReopen
+import Sourmash.Lemmas.CrashCsv
 /-! Property C10 — an interrupted or reopened on-disk index never returns wrong answers.
 Property theorems only (helper lemmas: `Sourmash/Lemmas/Crash*.lean`; model: `Sourmash/Model/Crash.lean`).
 
@@ -293,5 +294,99 @@ theorem rerun_after_reopen (rt : Manifest → Option Manifest) (hrt : ∀ m, rt 
         rw [hclean]
         exact hm }
   exact run_complete sp hi (agrees_create _ 0) hL
+
+/-! ### closed forms: the CSV round trip discharged by C12
+
+`resume_extension`, `reopen_unchanged` and `rerun_after_reopen` take the manifest's trip through its
+CSV encoding as a parameter `rt` with the hypothesis `hrt : ∀ m, rt m = some m`.  C10's model
+abstracts a manifest row to its internal location (`Manifest = List Nat`), C12's theorem
+(`Sourmash.C12.csv_roundtrip`) is about full eleven-column rows, so the two do not connect literally;
+they connect through an *interpretation* of the abstract locations as full rows
+(`Lemmas/CrashCsv.lean`, where the abstraction is spelled out): `enc n` is the row behind location `n`,
+`dec` reads the location back, and `csvTrip enc dec` = encode, `Manifest::to_writer`,
+`Manifest::from_reader`, project.  Below, `rt` is instantiated with `csvTrip enc dec` and `hrt` is
+*proved* from C12's theorem (`csvTrip_id`) for every interpretation that is faithful
+(`dec (enc n) = n`) and whose rows' integer columns fit their Rust types (`RowFits`) — whatever bytes
+the seven string columns contain.  No round-trip hypothesis is left. -/
+
+/-- **T-resume for extensions**, closed (see `resume_extension`; `hrt` discharged by C12). -/
+theorem resume_extension_csv (enc : Nat → Select.Record) (dec : Select.Record → Nat)
+    (hdec : ∀ n, dec (enc n) = n) (hfit : ∀ n, RowFits (enc n))
+    (c1 ext : Coll) (sp : Spec) (st : Store) (s : Disk)
+    (hr : Reach (c1 ++ ext) sp (cleanState c1 sp st) s) :
+    (∃ h, openIdx (csvTrip enc dec) s false = some h ∧ Agrees h.processed s ∧
+        updateLog h (c1 ++ ext) sp = some (seqLog (c1 ++ ext) h.processed ++ metaLog (c1 ++ ext) sp) ∧
+        ∀ L, IsLin (c1 ++ ext) h.processed L →
+          run s (L ++ metaLog (c1 ++ ext) sp) = cleanState (c1 ++ ext) sp st) ∧
+    (∀ L, IsLin (c1 ++ ext) (loadProcessed s true 0) L →
+          run s (L ++ metaLog (c1 ++ ext) sp) = cleanState (c1 ++ ext) sp st) ∧
+    (∀ L, IsLin (c1 ++ ext) (loadProcessed (cleanState c1 sp st) true 0) L →
+          run (cleanState c1 sp st) (L ++ metaLog (c1 ++ ext) sp) = cleanState (c1 ++ ext) sp st) :=
+  resume_extension (csvTrip enc dec) (csvTrip_id enc dec hdec hfit) c1 ext sp st s hr
+
+/-- non-vacuity of the interpretation hypotheses (the example interpretation of `Lemmas/CrashCsv.lean`
+over a default row), and the reopened extension of `resume_extension`'s example read through the real
+CSV trip -/
+example : (∀ n, exDec (exEnc default n) = n) ∧ (∀ n, RowFits (exEnc default n)) :=
+  ⟨exEnc_faithful default, exEnc_fits default rowFits_default⟩
+example : ∃ h, openIdx (csvTrip (exEnc default) exDec) (crashAt (cleanBuild [⟨0, [1, 2]⟩] .fs)
+        (seqLog exColl [0] ++ metaLog exColl .fs) 1) false = some h :=
+  (resume_extension_csv (exEnc default) exDec (exEnc_faithful default) (exEnc_fits default rowFits_default)
+    [⟨0, [1, 2]⟩] [⟨1, [2]⟩] .fs [] _
+    (Reach.round 1 Reach.start (agrees_create _ 0) (isLin_seqLog _ _))).1.imp (fun _ h => h.1)
+
+/-- **T-reopen**, closed (see `reopen_unchanged`; `hrt` discharged by C12): for every faithful
+interpretation of the locations as rows whose integer columns fit their types, any sequence of
+`flush` / `close` / `open(ro)` / `open(rw)` / `internalize_storage` / move on a completed index leaves
+HASHES and PROCESSED as they were, and opening — through the real CSV trip — succeeds with the same
+manifest, the same processed set, the same `sig_for_dataset`, `counter_for_query` and `gather`. -/
+theorem reopen_unchanged_csv (enc : Nat → Select.Record) (dec : Select.Record → Nat)
+    (hdec : ∀ n, dec (enc n) = n) (hfit : ∀ n, RowFits (enc n))
+    (w : World) (c : Coll) (d0 : Disk)
+    (hw : ∀ d (hd : d < c.length), w.load c[d].loc = some c[d].hashes)
+    (hc : Completed w c.manifest d0) (p : Nat) (ops : List ROp) (q : List Nat) :
+    let s' := (reopenSeq (csvTrip enc dec) w { disk := d0, handle := none, path := p } ops).1
+    s'.disk.hashes = d0.hashes ∧ s'.disk.processed = d0.processed ∧
+    counterFor s'.disk.hashes q = counterFor d0.hashes q ∧
+    (∀ ro, ∃ h, openIdx (csvTrip enc dec) s'.disk ro = some h ∧ h.manifest = c.manifest ∧
+        h.processed = loadProcessed d0 false c.length ∧
+        (∀ i, sigFor w s'.disk h i = c[i]?.map DS.hashes) ∧
+        gather s'.disk.hashes (sigFor w s'.disk h) q = gather d0.hashes (fun i => c[i]?.map DS.hashes) q) ∧
+    (∀ h, s'.handle = some h → h.manifest = c.manifest ∧
+        h.processed = loadProcessed d0 false c.length ∧
+        (∀ i, sigFor w s'.disk h i = c[i]?.map DS.hashes) ∧
+        gather s'.disk.hashes (sigFor w s'.disk h) q = gather d0.hashes (fun i => c[i]?.map DS.hashes) q) :=
+  reopen_unchanged (csvTrip enc dec) (csvTrip_id enc dec hdec hfit) w c d0 hw hc p ops q
+
+/-- non-vacuity of `reopen_unchanged_csv`: the world holds the example collection's signatures, its
+clean build is `Completed`, and the interpretation hypotheses hold (previous example) -/
+example :
+    let w : World := [(0, [1, 2]), (1, [2])]
+    (∀ d (hd : d < exColl.length), w.load exColl[d].loc = some exColl[d].hashes) ∧
+    Completed w exColl.manifest (cleanBuild exColl .fs) :=
+  ⟨by decide, completed_cleanBuild _ exColl⟩
+/-- … and the sequence of `reopen_unchanged`'s example run through the real CSV trip (the manifest is
+written with `Manifest::to_writer` and parsed back with `Manifest::from_reader` at both opens) -/
+example : csvTrip (exEnc default) exDec [0, 1, 2] = some [0, 1, 2] := by decide +kernel
+example :
+    let w : World := [(0, [1, 2]), (1, [2])]
+    ((reopenSeq (csvTrip (exEnc default) exDec) w { disk := cleanBuild exColl .fs }
+        [.openRw, .intern, .close, .move, .openRo]).2 = [.ok, .ok, .ok, .ok, .ok]) := by decide +kernel
+
+/-- `rerun_after_reopen`, closed (`hrt` discharged by C12). -/
+theorem rerun_after_reopen_csv (enc : Nat → Select.Record) (dec : Select.Record → Nat)
+    (hdec : ∀ n, dec (enc n) = n) (hfit : ∀ n, RowFits (enc n))
+    (w : World) (c : Coll) (sp : Spec) (p : Nat) (ops : List ROp) (L : List Write)
+    (hw : ∀ d (hd : d < c.length), w.load c[d].loc = some c[d].hashes) :
+    let s' := (reopenSeq (csvTrip enc dec) w { disk := cleanBuild c .fs, handle := none, path := p } ops).1
+    IsLin c (loadProcessed s'.disk true 0) L →
+    run s'.disk (L ++ metaLog c sp) = cleanState c sp s'.disk.storage :=
+  rerun_after_reopen (csvTrip enc dec) (csvTrip_id enc dec hdec hfit) w c sp p ops L hw
+example :
+    let w : World := [(0, [1, 2]), (1, [2])]
+    (∀ d (hd : d < exColl.length), w.load exColl[d].loc = some exColl[d].hashes) ∧
+    IsLin exColl (loadProcessed (cleanBuild exColl .fs) true 0)
+      (seqLog exColl (loadProcessed (cleanBuild exColl .fs) true 0)) :=
+  ⟨by decide, isLin_seqLog _ _⟩
 
 end Sourmash.C10
